@@ -13,6 +13,7 @@ package lang
 //@   ghost ii int
 //@   requires fn != nil && 0 <= bi && bi < len(fn.Blocks)
 //@   requires 0 <= ii && ii < len(fn.Blocks[bi].Instrs)
+//@   requires forall b int, i int :: 0 <= b && b < len(fn.Blocks) && 0 <= i && i < len(fn.Blocks[b].Instrs) ==> ref(fn.Blocks[b].Instrs[i]) != 0
 //@   slots fn.Blocks[bi].Instrs[ii] world ssa.Instruction except Store.Addr, MapUpdate.Map, Send.Chan, DebugRef.X
 //@     assume reads: val != nil && $slot == val
 //@   ensures reads_complete: result
